@@ -48,17 +48,25 @@ func (a *adapter[K, V]) Resize(n int)        { a.c.Resize(n) }
 func (a *adapter[K, V]) Len() int            { return a.c.Len() }
 func (a *adapter[K, V]) Capacity() int       { return a.c.Capacity() }
 func (a *adapter[K, V]) inst() string        { return a.name }
+// The slices returned by Keys() and Values() belong to the caller: after decoding, every element is overwritten
+// with the zero value, so that an implementation which hands out (and later reuses) an internal slice is exposed.
 func (a *adapter[K, V]) Keys() []int {
 	var out []int
-	for _, k := range a.c.Keys() {
+	ks := a.c.Keys()
+	var zk K
+	for i, k := range ks {
 		out = append(out, a.kdec(k))
+		ks[i] = zk
 	}
 	return out
 }
 func (a *adapter[K, V]) Values() []int {
 	var out []int
-	for _, v := range a.c.Values() {
+	vs := a.c.Values()
+	var zv V
+	for i, v := range vs {
 		out = append(out, a.vdec(v))
+		vs[i] = zv
 	}
 	return out
 }
